@@ -29,6 +29,7 @@ type NondetRec struct {
 
 // InputVal is one concrete nondet value in call order (JSON for the native replay).
 type InputVal struct {
+	Stub bool   `json:"stub,omitempty"` // drawn inside a stub: used by the interpreter's concrete re-execution only
 	Kind string `json:"k"`
 	V    string `json:"v"` // f64: hex bits; int/dyadic: decimal; bool: 0/1
 	Sh   int    `json:"sh,omitempty"`
@@ -112,6 +113,7 @@ type Explorer struct {
 	maxCEs       int
 	wantWitness  bool
 	recordInputs bool
+	stubInputs   []InputVal
 	used         []InputVal
 	knownClass   string
 }
@@ -320,9 +322,6 @@ func (ex *Explorer) inputsFromModel(model map[string]string) ([]InputVal, string
 	var ins []InputVal
 	note := ""
 	for _, nd := range ex.nondets {
-		if nd.Stub {
-			continue
-		}
 		if nd.Kind == "choose" {
 			ins = append(ins, InputVal{Kind: "int", V: strings.TrimPrefix(nd.Name, "choose=")})
 			continue
@@ -336,7 +335,7 @@ func (ex *Explorer) inputsFromModel(model map[string]string) ([]InputVal, string
 				note += fmt.Sprintf("[%s: %v] ", nd.Name, err)
 			}
 		}
-		iv := InputVal{Kind: nd.Kind}
+		iv := InputVal{Kind: nd.Kind, Stub: nd.Stub}
 		switch nd.Kind {
 		case "f64":
 			f := 0.0
@@ -445,8 +444,8 @@ func (ex *Explorer) Known(id string, c *Term) {
 func (ex *Explorer) Nondet(kind string, bits, shift int) *Term {
 	tt := ex.in.tt
 	dom := ex.in.cfg.Dom
-	if ex.concrete && ex.in.inStub > 0 {
-		// a "!" stub in a concrete run: its draws are not inputs; use zero values
+	if ex.concrete && ex.in.inStub > 0 && len(ex.stubInputs) == 0 {
+		// a "!" stub in a concrete run without model values for it: zero values
 		switch kind {
 		case "f64", "dyadic":
 			return tt.Float(0, dom)
@@ -456,7 +455,13 @@ func (ex *Explorer) Nondet(kind string, bits, shift int) *Term {
 		return tt.BV(0, bits)
 	}
 	if ex.concrete {
-		v := ex.nextInput(kind)
+		var v InputVal
+		if ex.in.inStub > 0 {
+			v = ex.stubInputs[0]
+			ex.stubInputs = ex.stubInputs[1:]
+		} else {
+			v = ex.nextInput(kind)
+		}
 		ex.nondets = append(ex.nondets, NondetRec{Kind: kind})
 		switch kind {
 		case "f64":
@@ -755,7 +760,15 @@ func Explore(prog *ssa.Program, harnesses []*ssa.Function, rc RunConfig) []*Harn
 
 // RunConcrete executes a harness in the interpreter on concrete inputs and returns the trace.
 func RunConcrete(prog *ssa.Program, h *ssa.Function, inputs []InputVal, seed int64, maxSteps int64) (trace []string, outcome pathOutcome, used int) {
-	ex := &Explorer{concrete: true, inputs: append([]InputVal{}, inputs...), rng: rand.New(rand.NewSource(seed)), maxDecisions: 1 << 30}
+	var plain, stubbed []InputVal
+	for _, iv := range inputs {
+		if iv.Stub {
+			stubbed = append(stubbed, iv)
+		} else {
+			plain = append(plain, iv)
+		}
+	}
+	ex := &Explorer{concrete: true, inputs: plain, stubInputs: stubbed, rng: rand.New(rand.NewSource(seed)), maxDecisions: 1 << 30}
 	ex.in = NewInterp(prog, domainOf(h.Name()), ex)
 	ex.in.maxSteps = maxSteps
 	ex.hr = NewHarnessResult(h.Name())
